@@ -32,4 +32,30 @@ MUTANTS = [
     (_T, '._unlink_inds', '                    self._inner_inds.discard(ind)\n                    self._outer_inds.add(ind)\n            except KeyError:\n                # tid already removed from x entry - e.g. repeated index\n                pass\n\n    def _reset', '                    self._outer_inds.discard(ind)\n                    self._inner_inds.add(ind)\n            except KeyError:\n                # tid already removed from x entry - e.g. repeated index\n                pass\n\n    def _reset', 'expect-fail'),
     (_T, '._unlink_inds', '                tids.discard(tid)\n                occurences = len(tids)', '                occurences = len(tids)', 'expect-fail'),
     (_T, '._unlink_inds', '                tids.discard(tid)\n                occurences = len(tids)', '                tids.discard(tid)\n                occurences = len(tids) - 1', 'expect-fail'),
+    # ---- _reset_inner_outer
+    (_T, '._reset_inner_outer', '            if occurences == 1:\n                self._inner_inds.discard(ind)\n                self._outer_inds.add(ind)', '            if occurences == 1:\n                self._outer_inds.discard(ind)\n                self._inner_inds.add(ind)', 'expect-fail'),
+    (_T, '._reset_inner_outer', '            if occurences == 1:\n                self._inner_inds.discard(ind)', '            if occurences <= 2:\n                self._inner_inds.discard(ind)', 'expect-fail'),
+    (_T, '._reset_inner_outer', '            else:\n                self._inner_inds.add(ind)\n                self._outer_inds.discard(ind)', '            else:\n                self._inner_inds.add(ind)', 'expect-fail'),
+    (_T, '._reset_inner_outer', '            if occurences == 1:\n                self._inner_inds.discard(ind)\n', '            if occurences == 1:\n', 'expect-fail'),
+    # ---- _next_tid
+    (_T, '._next_tid', '        while self._tid_counter in self.tensor_map:', '        while self._tid_counter not in self.tensor_map:', 'expect-fail'),
+    (_T, '._next_tid', '        return self._tid_counter\n', '        return self._tid_counter + 1\n', 'expect-fail'),
+    (_T, '._next_tid', '            self._tid_counter = self._tid_counter + 1', '            self._tid_counter = self._tid_counter - 1', 'expect-fail'),
+    (_T, '._next_tid', '            self._tid_counter = self._tid_counter + 1', '            self._tid_counter = self._tid_counter + 2', 'expect-fail'),
+    (_T, '._next_tid', '        while self._tid_counter in self.tensor_map:', '        while self._tid_counter + 1 in self.tensor_map:', 'expect-fail'),
+    # ---- add_tensor
+    (_T, '.add_tensor', '        if (tid is None) or (tid in self.tensor_map):', '        if (tid is None):', 'expect-fail'),
+    (_T, '.add_tensor', '        self._link_tags(T.tags, tid)\n', '', 'expect-fail'),
+    (_T, '.add_tensor', '        self._link_inds(T.inds, tid)\n', '        self._link_tags(T.inds, tid)\n', 'expect-fail'),
+    (_T, '.add_tensor', '        self._link_tags(T.tags, tid)\n        self._link_inds(T.inds, tid)', '        self._link_tags(T.inds, tid)\n        self._link_inds(T.tags, tid)', 'expect-fail'),
+    (_T, '.add_tensor', '        self.tensor_map[tid] = T\n', '        self.tensor_map[tid + 1] = T\n', 'expect-fail'),
+    (_T, '.add_tensor', '        if (tid is None) or (tid in self.tensor_map):', '        if (tid is None) or (tid not in self.tensor_map):', 'expect-fail'),
+    (_T, '.add_tensor', '        if (tid is None) or (tid in self.tensor_map):\n            tid = self._next_tid()', '        if (tid is None) or (tid in self.tensor_map):\n            tid = self._tid_counter', 'expect-fail'),
+    # ---- pop_tensor
+    (_T, '.pop_tensor', '        self._unlink_tags(t.tags, tid)\n', '', 'expect-fail'),
+    (_T, '.pop_tensor', '        self._unlink_inds(t.inds, tid)\n', '', 'expect-fail'),
+    (_T, '.pop_tensor', '        self._unlink_inds(t.inds, tid)\n', '        self._unlink_inds(t.tags, tid)\n', 'expect-fail'),
+    (_T, '.pop_tensor', '        t = self.tensor_map.pop(tid)\n', '        t = self.tensor_map.pop(tid)\n        self.tensor_map[tid] = t\n', 'expect-fail'),
+    (_T, '.pop_tensor', '        self._unlink_tags(t.tags, tid)\n        self._unlink_inds(t.inds, tid)', '        self._unlink_tags(t.tags, tid + 1)\n        self._unlink_inds(t.inds, tid)', 'expect-fail'),
+    (_T, '.pop_tensor', '        self._unlink_tags(t.tags, tid)\n        self._unlink_inds(t.inds, tid)', '        self._link_tags(t.tags, tid)\n        self._unlink_inds(t.inds, tid)', 'expect-fail'),
 ]
